@@ -21,6 +21,8 @@ import BitstringModel.Model.Basic
 namespace BM.C12
 open BM
 
+deriving instance DecidableEq for Except
+
 /-- `bitstring.options.lsb0`. -/
 inductive Mode where
   | msb0 | lsb0
@@ -830,6 +832,31 @@ def setLsb0 (env : Attrs) (value : Bool) : Attrs :=
   (if value then lsb0Table else msb0Table).foldl setAttr env
 
 def bindingToStr (b : Binding) : String := s!"{b.1}.{b.2.1}={b.2.2.1}.{b.2.2.2}"
+
+/-! ## regions in which the unchanged code deviates from the mirror law
+     (known findings; the same names are the keys of `REGIONS` in harness/props/C12.py) -/
+
+/-- a negative slice step (get / set / del) -/
+def negStep (k : Key) : Bool := match k.step with | some c => decide (c < 0) | none => false
+
+/-- a resizing (step-less or step-1) slice assignment whose clamped stop lies before its clamped start -/
+def invertedAssign (k : Key) (n : Nat) : Bool :=
+  (k.step = none ∨ k.step = some 1) ∧
+    (Py.sliceIndices k.start k.stop 1 n).2.1 < (Py.sliceIndices k.start k.stop 1 n).1
+
+/-- `find` / `rfind` with `bytealigned=True` -/
+def alignedFind (ba : Bool) : Bool := ba
+
+/-- `findall` with `bytealigned=True` and a `count` -/
+def countAligned {α} (count : Option α) (ba : Bool) : Bool := ba ∧ count.isSome
+
+/-- `set(value, range(...))` and `x[a:b:c] = 0|1` with an extended step -/
+def setRange : PosSpec → Bool
+  | .range _ _ _ => true
+  | _ => false
+
+/-- `findall` (and `replace`, which is written with it) over a window longer than one chunk -/
+def multiChunk (inc tlen a b : Nat) : Bool := decide (b - a > inc + tlen)
 
 /-! ## driver -/
 
